@@ -130,6 +130,7 @@ def units(tier):
                    ("ffef", [3], {}), ("feff", [1, 2], {})]
     else:
         shapes += [("fdff", [2, 1], {})]
+    shapes += [("fdf", [1, 0, 1], {})]   # a folder without members between two others
     us = []
     for (p, f, o) in shapes:
         for rec in (False, True):
